@@ -175,6 +175,8 @@ Proof.
   apply callback_from_emit; [exact F_fail|].
   intros; unfold P in *; eapply keeps_trans; [eassumption|]; apply keeps_same; reflexivity.
 Qed.
+Lemma F_step : forall s kind mkid x, find_mkt mkid (s_markets s) = Some x -> P s -> P (emit s (ev_step s kind x)).
+Proof. intros; unfold P in *; eapply keeps_trans; [eassumption|]; apply keeps_same; reflexivity. Qed.
 Lemma F_boundary : forall s e, boundary_event e -> P s -> P (flush (write s e)).
 Proof. intros; unfold P in *; eapply keeps_trans; [eassumption|]; apply keeps_same; reflexivity. Qed.
 Lemma F_accept_order : forall s mkid x ag mk buy p v ttlv m' rc tag,
@@ -208,10 +210,10 @@ End Frame.
    consulting agents, accepting orders and cancels, every round of matching and all their hooks and callbacks, the
    after-step hooks - leaves every market's id and time as they were. *)
 Lemma keeps_step_begin s mkid0 : keeps s (step_begin s mkid0).
-Proof. apply (step_begin_pres (keeps s) (F_emit s) (F_halt_before s) (F_shock s)). apply keeps_refl. Qed.
+Proof. apply (step_begin_pres (keeps s) (F_emit s) (F_step s) (F_halt_before s) (F_shock s)). apply keeps_refl. Qed.
 
 Lemma keeps_step_end s mkid0 : keeps s (step_end s mkid0).
-Proof. apply (step_end_pres (keeps s) (F_emit s) (F_halt_before s) (F_shock s)). apply keeps_refl. Qed.
+Proof. apply (step_end_pres (keeps s) (F_emit s) (F_step s) (F_halt_before s) (F_shock s)). apply keeps_refl. Qed.
 
 Lemma keeps_update_markets s : keeps s (update_markets s).
 Proof.
